@@ -60,3 +60,88 @@ Corollary started_not_cancelled : forall c s t s' l i,
 Proof.
   intros c s t s' l i Hst Hc. pose proof (started_never_cancelled c s t s' l i Hst Hc) as [H|[[v H]|H]]; rewrite H; split; discriminate.
 Qed.
+
+(* ---- the same for the per-call executor (Model/StepExec.v) and for the dependency resolver in front
+   of either executor (Model/DepExec.v) ---- *)
+From EL Require Import Model.StepExec Model.DepExec Proofs.StepSafe Proofs.DepSafe Proofs.Fidelity.
+
+Definition smove (s s' : state) : Prop :=
+  futs s' = futs s \/
+  exists i f, futs s' = upd (futs s) (i - 1) f /\ (started (getf s i) -> started f).
+
+Lemma smove_started : forall s s' i, smove s s' -> started (getf s i) -> started (getf s' i).
+Proof.
+  intros s s' i [E|(i0 & f & E & Hc)] H; unfold getf in *; rewrite E; [exact H|].
+  destruct (ExecSafe.nth_upd_cases _ (futs s) (i - 1) (i0 - 1) f FPending) as [(E1 & L & Hx)|(E1 & Hx)]; rewrite Hx.
+  - apply Hc. rewrite <- E1. exact H.
+  - exact H.
+Qed.
+
+Lemma fshape_smove : forall s s', fshape s s' -> smove s s'.
+Proof.
+  intros s s' [E|[i E]]; [left; exact E|]. right. exists i, (fst (fcancel (getf s i))).
+  split; [exact E|]. intros H. destruct (fcancel (getf s i)) as [f' b] eqn:Ec. simpl.
+  eapply fcancel_started; eauto.
+Qed.
+
+Theorem step_started_stays : forall c x t x' l i,
+  xstep c x t = Some (x', l) -> started (getf (base x) i) -> started (getf (base x') i).
+Proof.
+  intros c x t x' l i Hst Hc. destruct t as [| | |j|k]; simpl in Hst.
+  - eapply (smove_started (base x) (base x')); [|exact Hc].
+    apply fshape_smove. eapply xm_step_fshape; exact Hst.
+  - discriminate Hst.
+  - destruct (d_step_frame _ _ _ _ _ Hst) as (_ & _ & Ef). unfold getf in *. rewrite Ef. exact Hc.
+  - destruct j as [|j]; [discriminate Hst|].
+    destruct (w_step (bcfg c) (base x) j) as [[b l']|] eqn:Hw; [|discriminate Hst].
+    inversion Hst; subst; clear Hst. simpl.
+    eapply (started_never_cancelled (bcfg c) (base x) (TW (S j)) b _ i); [simpl; exact Hw|exact Hc].
+  - destruct (p_step (bcfg c) (base x) k) as [[b l']|] eqn:Hp; [|discriminate Hst].
+    inversion Hst; subst; clear Hst. simpl.
+    eapply (started_never_cancelled (bcfg c) (base x) (TP k) b _ i); [simpl; exact Hp|exact Hc].
+Qed.
+
+Lemma r_step_smove : forall c d d' l, r_step c d = Some (d', l) -> smove (dbase d) (dbase d').
+Proof.
+  intros c d d' l H. unfold r_step in H. cbv zeta in H.
+  destruct (rp d); dall H; inversion H; subst; clear H; xsn; simpl.
+  all: first [ left; reflexivity
+             | right; eexists; eexists; split; [reflexivity|];
+               intros [E|[[v E]|E]]; first [congruence | unfold started; eauto] ].
+Qed.
+
+Lemma dm_step_smove : forall c d d' l, dm_step c d = Some (d', l) -> smove (dbase d) (dbase d').
+Proof.
+  intros c d d' l H. unfold dm_step in H. cbv zeta in H. unfold dbase.
+  assert (Hxm :
+      match xm_step (dx c) (xs d) with Some (x', l0) => Some (set_xs d x', l0) | None => None end = Some (d', l) ->
+      smove (base (xs d)) (base (xs d'))).
+  { intros Hx. destruct (xm_step (dx c) (xs d)) as [[x' l0]|] eqn:Hxs; [|discriminate Hx].
+    inversion Hx; subst. simpl. apply fshape_smove. eapply xm_step_fshape; exact Hxs. }
+  destruct (main (base (xs d))) eqn:Hm; try (apply Hxm; exact H).
+  - destruct (dinner c) as [[|n]|]; inversion H; subst; simpl; left; reflexivity.
+  - destruct (dinner c) as [n|].
+    + destruct (Nat.ltb k n); inversion H; subst; simpl; left; [reflexivity|apply ExecSafe.m_goto_futs].
+    + destruct k; inversion H; subst; simpl; left; [reflexivity|apply ExecSafe.m_goto_futs].
+  - destruct (rdone (rp d)); [|discriminate H]. destruct (rp d); inversion H; subst; simpl;
+    unfold smove; rewrite ?ExecSafe.m_done_futs; left; reflexivity.
+Qed.
+
+Theorem dep_started_stays : forall c d t d' l i,
+  dstep c d t = Some (d', l) -> started (getf (dbase d) i) -> started (getf (dbase d') i).
+Proof.
+  intros c d t d' l i Hst Hc. destruct t as [| | |j|k]; simpl in Hst.
+  - eapply (smove_started _ _ i (dm_step_smove _ _ _ _ Hst)); exact Hc.
+  - eapply (smove_started _ _ i (r_step_smove _ _ _ _ Hst)); exact Hc.
+  - destruct (dinner c); [discriminate Hst|].
+    destruct (d_step (dx c) 1 (xs d)) as [[x' l']|] eqn:Hd; [|discriminate Hst].
+    inversion Hst; subst; clear Hst. unfold dbase in *. simpl.
+    destruct (d_step_frame _ _ _ _ _ Hd) as (_ & _ & Ef). unfold getf in *. rewrite Ef. exact Hc.
+  - destruct j as [|j]; [discriminate Hst|].
+    destruct (w_step (bcfg (dx c)) (dbase d) j) as [[b l']|] eqn:Hw; [|discriminate Hst].
+    inversion Hst; subst; clear Hst. unfold dbase in *. simpl.
+    eapply (started_never_cancelled (bcfg (dx c)) (base (xs d)) (TW (S j)) b _ i); [simpl; exact Hw|exact Hc].
+  - destruct (p_step (bcfg (dx c)) (dbase d) k) as [[b l']|] eqn:Hp; [|discriminate Hst].
+    inversion Hst; subst; clear Hst. unfold dbase in *. simpl.
+    eapply (started_never_cancelled (bcfg (dx c)) (base (xs d)) (TP k) b _ i); [simpl; exact Hp|exact Hc].
+Qed.
